@@ -1,4 +1,659 @@
 import PV.C15.Model
 import PV.C15.Spec
+/-! C15 — helper lemmas (property theorems are in `Thm.lean`). -/
 namespace PV.C15
+open Spec
+
+theorem indexLines_ne_nil (bs : List Nat) : indexLines bs ≠ [] := by
+  fun_induction indexLines bs <;> simp_all
+
+theorem indexLines_flatten (bs : List Nat) : (indexLines bs).flatten = bs := by
+  fun_induction indexLines bs <;> simp_all
+
+theorem splitLines_flatten_aux (bs : List Nat) : (splitLines bs).flatten = bs := by
+  fun_induction splitLines bs <;> simp_all
+
+theorem indexLines_length (bs : List Nat) : (indexLines bs).length = breaks bs + 1 := by
+  fun_induction indexLines bs <;> simp_all [breaks] <;> omega
+
+theorem startsFrom_length (o : Nat) (ls : List (List Nat)) : (startsFrom o ls).length = ls.length := by
+  induction ls generalizing o <;> simp_all [startsFrom]
+
+/-- key lemma: the byte loop computes the running starts of the reference lines -/
+theorem lineStartsGo_spec (i : Nat) (bs : List Nat) :
+    i :: lineStartsGo i bs = startsFrom i (indexLines bs) := by
+  fun_induction indexLines bs generalizing i <;> simp_all [lineStartsGo, startsFrom]
+  · rename_i rest _ _
+    intro h; cases rest <;> simp_all
+  · congr 1; omega
+
+theorem head?_ne_of_forall {rest : List Nat} (h : ∀ r, ¬ rest = 10 :: r) : rest.head? ≠ some 10 := by
+  cases rest <;> simp_all
+
+theorem lineStarts_spec_aux (bs : List Nat) : lineStarts bs = startsFrom 0 (indexLines bs) :=
+  lineStartsGo_spec 0 bs
+
+theorem lineCount_aux (bs : List Nat) : lineCount bs = breaks bs + 1 := by
+  rw [lineCount, lineStarts_spec_aux, startsFrom_length, indexLines_length]
+
+/-- all entries produced by the loop lie strictly above the running index and increase strictly -/
+theorem lineStartsGo_sorted (i : Nat) (bs : List Nat) :
+    (∀ x ∈ lineStartsGo i bs, i < x) ∧ (lineStartsGo i bs).Pairwise (· < ·) := by
+  induction bs generalizing i with
+  | nil => simp [lineStartsGo]
+  | cons b rest ih =>
+    have ⟨h1, h2⟩ := ih (i + 1)
+    unfold lineStartsGo
+    split
+    · exact ⟨fun x hx => by have := h1 x hx; omega, h2⟩
+    · split
+      · refine ⟨?_, ?_⟩
+        · intro x hx
+          simp only [List.mem_cons] at hx
+          rcases hx with rfl | hx
+          · omega
+          · have := h1 x hx; omega
+        · exact List.pairwise_cons.mpr ⟨fun x hx => h1 x hx, h2⟩
+      · exact ⟨fun x hx => by have := h1 x hx; omega, h2⟩
+
+theorem lineStarts_sorted (bs : List Nat) : (lineStarts bs).Pairwise (· < ·) := by
+  have ⟨h1, h2⟩ := lineStartsGo_sorted 0 bs
+  exact List.pairwise_cons.mpr ⟨fun x hx => h1 x hx, h2⟩
+
+theorem binarySearch_cons_lt (y x : Nat) (ys : List Nat) (h : y < x) :
+    binarySearch (y :: ys) x = ((binarySearch ys x).1, (binarySearch ys x).2 + 1) := by
+  unfold binarySearch
+  rw [List.findIdx?_cons]
+  have : decide (x ≤ y) = false := by simp; omega
+  simp only [this]
+  cases hf : List.findIdx? (fun y => decide (x ≤ y)) ys <;> simp
+
+theorem binarySearch_count (xs : List Nat) (x : Nat) (hs : xs.Pairwise (· < ·)) :
+    xs.countP (· ≤ x) = (if (binarySearch xs x).1 then (binarySearch xs x).2 + 1 else (binarySearch xs x).2) := by
+  induction xs with
+  | nil => simp [binarySearch]
+  | cons y ys ih =>
+    have hs' := List.pairwise_cons.mp hs
+    by_cases hxy : x ≤ y
+    · have hz : ys.countP (· ≤ x) = 0 := by
+        rw [List.countP_eq_zero]
+        intro a ha
+        have := hs'.1 a ha
+        simp; omega
+      have hb : binarySearch (y :: ys) x = (y == x, 0) := by
+        unfold binarySearch
+        rw [List.findIdx?_cons]
+        simp [hxy]
+      rw [hb, List.countP_cons, hz]
+      by_cases hyx : y = x <;> simp [hyx]
+      omega
+    · have hlt : y < x := by omega
+      rw [binarySearch_cons_lt y x ys hlt, List.countP_cons, ih hs'.2]
+      have : decide (y ≤ x) = true := by simp; omega
+      simp only [this]
+      split <;> simp
+
+/-- in a strictly increasing list the elements `≤ x` are exactly the first `countP (· ≤ x)` ones -/
+theorem sorted_count_iff (xs : List Nat) (x : Nat) (hs : xs.Pairwise (· < ·)) (j : Nat) (hj : j < xs.length) :
+    j < xs.countP (· ≤ x) ↔ xs[j] ≤ x := by
+  induction xs generalizing j with
+  | nil => simp at hj
+  | cons y ys ih =>
+    have hs' := List.pairwise_cons.mp hs
+    rw [List.countP_cons]
+    cases j with
+    | zero =>
+      simp only [List.getElem_cons_zero]
+      by_cases hy : y ≤ x
+      · simp [hy]
+      · simp only [hy, decide_false, Bool.false_eq_true, ↓reduceIte, Nat.add_zero, iff_false, Nat.not_lt,
+          Nat.le_zero_eq]
+        rw [List.countP_eq_zero]
+        intro a ha
+        have := hs'.1 a ha
+        simp; omega
+    | succ j =>
+      simp only [List.getElem_cons_succ]
+      have hj' : j < ys.length := by simpa using hj
+      have := ih hs'.2 j hj'
+      by_cases hy : y ≤ x
+      · simp only [hy, decide_true, ↓reduceIte]; omega
+      · simp only [hy, decide_false, Bool.false_eq_true, ↓reduceIte, Nat.add_zero]
+        have h1 : ¬ ys[j] ≤ x := by
+          have := hs'.1 ys[j] (List.getElem_mem hj')
+          omega
+        have h2 : ys.countP (· ≤ x) = 0 := by
+          rw [List.countP_eq_zero]
+          intro a ha
+          have := hs'.1 a ha
+          simp; omega
+        omega
+
+theorem splitLines_eq_nil (t : List Nat) : splitLines t = [] ↔ t = [] := by
+  fun_induction splitLines t <;> simp_all
+
+theorem splitLines_cr (rest : List Nat) (h : rest.head? ≠ some 10) :
+    splitLines (13 :: rest) = [13] :: splitLines rest := by
+  cases rest with
+  | nil => simp [splitLines]
+  | cons c r =>
+    have : c ≠ 10 := by simpa using h
+    rw [splitLines]
+    intro r' h'; simp_all
+
+theorem splitLines_crlf (rest : List Nat) (h : rest.head? = some 10) :
+    splitLines (13 :: rest) = (13 :: 10 :: []) :: splitLines rest.tail := by
+  cases rest with
+  | nil => simp at h
+  | cons c r =>
+    have : c = 10 := by simpa using h
+    subst this
+    simp [splitLines]
+
+theorem splitLines_other (b : Nat) (rest : List Nat) (h1 : b ≠ 10) (h2 : b ≠ 13) :
+    splitLines (b :: rest) = match splitLines rest with
+      | [] => [[b]]
+      | l :: ls => (b :: l) :: ls := by
+  rw [splitLines] <;> first | rfl | simp_all
+
+theorem findNewline_some (t : List Nat) (p l : Nat) (h : findNewline t = some (p, l)) :
+    splitLines t = (t.take (p + l)) :: splitLines (t.drop (p + l)) := by
+  induction t generalizing p l with
+  | nil => simp [findNewline] at h
+  | cons b rest ih =>
+    unfold findNewline at h
+    split at h
+    · rename_i hb; subst hb
+      simp at h; obtain ⟨rfl, rfl⟩ := h
+      simp [splitLines]
+    · split at h
+      · rename_i hb; subst hb
+        split at h
+        · rename_i hh
+          simp at h; obtain ⟨rfl, rfl⟩ := h
+          rw [splitLines_crlf rest hh]
+          cases rest with
+          | nil => simp at hh
+          | cons c r => simp at hh; subst hh; simp
+        · rename_i hh
+          simp at h; obtain ⟨rfl, rfl⟩ := h
+          rw [splitLines_cr rest hh]
+          simp
+      · rename_i h1 h2
+        split at h
+        · rename_i p' l' hf
+          simp at h; obtain ⟨rfl, rfl⟩ := h
+          rw [splitLines_other b rest h1 h2, ih p' l' hf]
+          have e : p' + 1 + l' = (p' + l') + 1 := by omega
+          rw [e]
+          simp
+        · simp at h
+
+theorem findNewline_none (t : List Nat) (hne : t ≠ []) (h : findNewline t = none) :
+    splitLines t = [t] := by
+  induction t with
+  | nil => simp at hne
+  | cons b rest ih =>
+    unfold findNewline at h
+    split at h
+    · simp at h
+    · split at h
+      · split at h <;> simp at h
+      · rename_i h1 h2
+        split at h
+        · simp at h
+        · rename_i hf
+          rw [splitLines_other b rest h1 h2]
+          cases rest with
+          | nil => simp [splitLines]
+          | cons c r => rw [ih (by simp) hf]
+
+def isNl (b : Nat) : Bool := b = 10 || b = 13
+
+/-- Splitting distributes over a cut placed right after a line break (not inside a CR LF pair). -/
+theorem splitLines_append (a b : List Nat)
+    (hend : ∃ c, a.getLast? = some c ∧ isNl c = true)
+    (hcrlf : ¬ (a.getLast? = some 13 ∧ b.head? = some 10)) :
+    splitLines (a ++ b) = splitLines a ++ splitLines b := by
+  fun_induction splitLines a
+  · simp at hend
+  · -- 10 :: rest
+    rename_i rest ih
+    simp only [List.cons_append, splitLines]
+    cases rest with
+    | nil => simp [splitLines]
+    | cons c r =>
+      simp only [List.getLast?_cons_cons] at hend hcrlf
+      rw [ih hend hcrlf]
+  · -- 13 :: 10 :: rest
+    rename_i rest ih
+    simp only [List.cons_append, splitLines]
+    cases rest with
+    | nil => simp [splitLines]
+    | cons c r =>
+      simp only [List.getLast?_cons_cons] at hend hcrlf
+      rw [ih hend hcrlf]
+  · -- 13 :: rest, rest not starting with 10
+    rename_i rest hnot ih
+    cases rest with
+    | nil =>
+      simp only [List.getLast?_singleton, true_and] at hcrlf
+      simp only [List.cons_append, List.nil_append]
+      rw [splitLines_cr b hcrlf]; simp [splitLines]
+    | cons c r =>
+      have hc : c ≠ 10 := by intro h; exact hnot r (by rw [h])
+      simp only [List.getLast?_cons_cons] at hend hcrlf
+      simp only [List.cons_append]
+      rw [splitLines_cr (c :: (r ++ b)) (by simpa using hc)]
+      rw [← List.cons_append, ih hend hcrlf]
+  · -- other byte, splitLines rest = []
+    rename_i bb rest _ _ _ hnil ih
+    have h1 : bb ≠ 10 := by assumption
+    have h2 : bb ≠ 13 := by assumption
+    rw [splitLines_eq_nil] at hnil
+    subst hnil
+    simp [isNl] at hend
+    omega
+  · rename_i bb rest _ _ _ l ls hsp ih
+    have h1 : bb ≠ 10 := by assumption
+    have h2 : bb ≠ 13 := by assumption
+    have hne : rest ≠ [] := by intro h; subst h; simp [splitLines] at hsp
+    cases rest with
+    | nil => exact absurd rfl hne
+    | cons c r =>
+      simp only [List.getLast?_cons_cons] at hend hcrlf
+      simp only [List.cons_append]
+      rw [splitLines_other bb _ h1 h2]
+      rw [← List.cons_append, ih hend hcrlf, hsp]
+      simp
+
+/-- a run of non-break bytes followed by at most one terminator is a single line -/
+theorem splitLines_single (body term : List Nat) (hb : ∀ x ∈ body, isNl x = false)
+    (ht : term = [] ∨ term = [10] ∨ term = [13] ∨ term = [13, 10]) (hne : body ++ term ≠ []) :
+    splitLines (body ++ term) = [body ++ term] := by
+  induction body with
+  | nil =>
+    rcases ht with rfl | rfl | rfl | rfl <;> simp_all [splitLines]
+  | cons x xs ih =>
+    have hx : isNl x = false := hb x (by simp)
+    simp [isNl] at hx
+    have hxs : ∀ y ∈ xs, isNl y = false := fun y hy => hb y (by simp [hy])
+    simp only [List.cons_append]
+    rw [splitLines_other x _ hx.1 hx.2]
+    by_cases hnil : xs ++ term = []
+    · rw [hnil]; simp [splitLines]
+    · rw [ih hxs hnil]
+
+theorem trim_decomp (t : List Nat) :
+    ∃ term, t = trimTrailing t ++ term ∧
+      ((term = [] ∧ ∀ c, t.getLast? = some c → isNl c = false) ∨
+       (term = [10] ∧ (trimTrailing t).getLast? ≠ some 13) ∨ term = [13] ∨ term = [13, 10]) := by
+  have hrev : t = t.reverse.reverse := by simp
+  unfold trimTrailing
+  split
+  · next r h =>
+    refine ⟨[13, 10], ?_, by simp⟩
+    rw [hrev, h]; simp
+  · next r h hno =>
+    refine ⟨[10], ?_, Or.inr (Or.inl ⟨rfl, ?_⟩)⟩
+    · rw [hrev, hno]; simp
+    · intro hl
+      rw [List.getLast?_reverse] at hl
+      cases r with
+      | nil => simp at hl
+      | cons c r' => simp at hl; subst hl; exact h r' rfl
+  · next r h =>
+    refine ⟨[13], ?_, by simp⟩
+    rw [hrev, h]; simp
+  · next h1 h2 h3 =>
+    refine ⟨[], by simp, Or.inl ⟨rfl, ?_⟩⟩
+    intro c hc
+    rw [List.getLast?_eq_head?_reverse] at hc
+    cases hr : t.reverse with
+    | nil => rw [hr] at hc; simp at hc
+    | cons d r =>
+      rw [hr] at hc; simp at hc; subst hc
+      simp only [isNl, Bool.or_eq_false_iff, decide_eq_false_iff_not]
+      constructor
+      · intro h10; subst h10
+        cases r with
+        | nil => exact h2 [] hr
+        | cons e r' =>
+          by_cases he : e = 13
+          · subst he; exact h1 r' hr
+          · exact h2 (e :: r') hr
+      · intro h13; subst h13; exact h3 r hr
+
+theorem rfind_decomp_rev (r : List Nat) :
+    (rfindNewline r.reverse = none ∧ ∀ x ∈ r, isNl x = false) ∨
+    (∃ a c body, r.reverse = a ++ c :: body ∧ isNl c = true ∧ (∀ x ∈ body, isNl x = false) ∧
+      rfindNewline r.reverse = some a.length) := by
+  induction r with
+  | nil => left; simp [rfindNewline]
+  | cons x r ih =>
+    unfold rfindNewline
+    rw [List.reverse_reverse, List.findIdx?_cons]
+    by_cases hx : isNl x = true
+    · right
+      refine ⟨r.reverse, x, [], by simp, hx, by simp, ?_⟩
+      have : (decide (x = 10 ∨ x = 13)) = true := by simpa [isNl] using hx
+      simp [this]
+    · have hx' : isNl x = false := by simpa using hx
+      have : (decide (x = 10 ∨ x = 13)) = false := by simpa [isNl] using hx'
+      simp only [this, Bool.false_eq_true, ↓reduceIte]
+      unfold rfindNewline at ih
+      rw [List.reverse_reverse] at ih
+      rcases ih with ⟨hn, hall⟩ | ⟨a, c, body, hrr, hc, hbody, hr⟩
+      · left
+        constructor
+        · cases hf : List.findIdx? (fun b => decide (b = 10 ∨ b = 13)) r with
+          | none => simp
+          | some i => rw [hf] at hn; simp at hn
+        · intro y hy
+          simp at hy
+          rcases hy with rfl | hy
+          · exact hx'
+          · exact hall y hy
+      · right
+        refine ⟨a, c, body ++ [x], by simp [hrr], hc, ?_, ?_⟩
+        · intro y hy
+          simp at hy
+          rcases hy with hy | rfl
+          · exact hbody y hy
+          · exact hx'
+        · cases hf : List.findIdx? (fun b => decide (b = 10 ∨ b = 13)) r with
+          | none => rw [hf] at hr; simp at hr
+          | some i =>
+            rw [hf] at hr
+            have hl : r.length = a.length + 1 + body.length := by
+              have := congrArg List.length hrr
+              simp at this; omega
+            simp at hr ⊢
+            omega
+
+theorem rfind_decomp (h : List Nat) :
+    (rfindNewline h = none ∧ ∀ x ∈ h, isNl x = false) ∨
+    (∃ a c body, h = a ++ c :: body ∧ isNl c = true ∧ (∀ x ∈ body, isNl x = false) ∧
+      rfindNewline h = some a.length) := by
+  have := rfind_decomp_rev h.reverse
+  simpa using this
+
+theorem binarySearch_true (xs : List Nat) (x i : Nat) (h : binarySearch xs x = (true, i)) :
+    xs[i]? = some x := by
+  unfold binarySearch at h
+  split at h
+  · simp at h; obtain ⟨h1, rfl⟩ := h; exact h1
+  · simp at h
+
+theorem charCount_ascii (bs : List Nat) (h : ∀ b ∈ bs, b < 128) : charCount bs = bs.length := by
+  unfold charCount
+  rw [List.countP_eq_length]
+  intro b hb
+  have := h b hb
+  simp [isCont]; omega
+
+theorem sourceLocation_row' (bs : List Nat) (off r c : Nat) (h : sourceLocation bs off = some (r, c)) :
+    r = lineIndex bs off := by
+  unfold sourceLocation at h
+  unfold lineIndex
+  simp only at h
+  split at h
+  · next row hb => simp at h; exact h.1.symm
+  · next nextRow hb =>
+    split at h
+    · cases h
+    · split at h
+      · cases h
+      · split at h
+        · simp at h; exact h.1.symm
+        · split at h
+          · simp at h; exact h.1.symm
+          · cases h
+
+/-- the segment whose characters are counted: from the line start (after a BOM on the first line)
+    up to the offset -/
+def segment (bs : List Nat) (ls off : Nat) : List Nat :=
+  let ls' := if ls = 0 ∧ bom.isPrefixOf bs = true ∧ 3 ≤ off then 3 else ls
+  (bs.drop ls').take (off - ls')
+
+theorem sourceLocation_column' (bs : List Nat) (off r c : Nat) (hoff : off ≤ bs.length)
+    (h : sourceLocation bs off = some (r, c)) :
+    ∃ ls, (lineStarts bs)[r]? = some ls ∧ c = charCount (segment bs ls off) := by
+  unfold sourceLocation at h
+  simp only at h
+  split at h
+  · next row hb =>
+    simp at h; obtain ⟨rfl, rfl⟩ := h
+    refine ⟨off, binarySearch_true _ _ _ hb, ?_⟩
+    unfold segment
+    simp only
+    split
+    · next hc => omega
+    · simp [charCount]
+  · next nextRow hb =>
+    split at h
+    · cases h
+    · split at h
+      · cases h
+      · next ls hls =>
+        split at h
+        · next hascii =>
+          simp at h; obtain ⟨rfl, rfl⟩ := h
+          refine ⟨ls, hls, ?_⟩
+          have hall : ∀ b ∈ bs, b < 128 := by
+            simpa [isAsciiText] using hascii
+          have hnb : bom.isPrefixOf bs = false := by
+            cases bs with
+            | nil => simp [bom]
+            | cons b rest =>
+              have := hall b (by simp)
+              simp [bom, List.isPrefixOf]
+              intro hb'; omega
+          unfold segment
+          simp only [hnb, Bool.false_eq_true, false_and, and_false, ↓reduceIte]
+          rw [charCount_ascii]
+          · simp; omega
+          · intro b hb'
+            exact hall b (List.mem_of_mem_drop (List.mem_of_mem_take hb'))
+        · split at h
+          · next s hs =>
+            simp at h; obtain ⟨rfl, rfl⟩ := h
+            refine ⟨ls, hls, ?_⟩
+            unfold segment
+            by_cases hb0 : ls = 0 ∧ bom.isPrefixOf bs = true
+            · simp only [hb0, and_self, ↓reduceIte] at hs
+              simp only [sliceChecked] at hs
+              split at hs
+              · next hcond =>
+                injection hs with hs; subst hs
+                have : 3 ≤ off := hcond.1
+                simp [this, hb0.1, hb0.2]
+              · cases hs
+            · simp only [hb0, ↓reduceIte] at hs
+              simp only [sliceChecked] at hs
+              split at hs
+              · next hcond =>
+                injection hs with hs; subst hs
+                have : ¬ (ls = 0 ∧ bom.isPrefixOf bs = true ∧ 3 ≤ off) := by
+                  intro hh; exact hb0 ⟨hh.1, hh.2.1⟩
+                simp only [this, ↓reduceIte]
+              · cases hs
+          · cases h
+
+theorem next_empty (it : Iter) (h : it.text = []) : it.next = (none, it) := by
+  simp [Iter.next, h]
+
+theorem next_spec_aux (it : Iter) (hne : it.text ≠ []) :
+    ∃ l rest, splitLines it.text = l :: rest ∧ splitLines rest.flatten = rest ∧
+      it.next.1 = some ⟨l, it.offset⟩ ∧ it.next.2.text = rest.flatten ∧
+      (rest ≠ [] → it.next.2.offset = it.offset + l.length) ∧
+      it.next.2.offsetBack = it.offsetBack := by
+  unfold Iter.next
+  have hemp : it.text.isEmpty = false := by simpa using hne
+  simp only [hemp, Bool.false_eq_true, ↓reduceIte]
+  cases hf : findNewline it.text with
+  | none =>
+    refine ⟨it.text, [], findNewline_none _ hne hf, ?_⟩
+    simp [splitLines]
+  | some pl =>
+    obtain ⟨p, l⟩ := pl
+    have := findNewline_some _ p l hf
+    refine ⟨_, _, this, ?_⟩
+    simp [splitLines_flatten_aux]
+
+theorem nextBack_empty (it : Iter) (h : it.text = []) : it.nextBack = (none, it) := by
+  simp [Iter.nextBack, h]
+
+theorem nextBack_spec_aux (it : Iter) (hne : it.text ≠ []) :
+    ∃ init l, splitLines it.text = init ++ [l] ∧ splitLines init.flatten = init ∧
+      it.nextBack.1 = some ⟨l, it.offsetBack - l.length⟩ ∧ it.nextBack.2.text = init.flatten ∧
+      it.nextBack.2.offset = it.offset ∧
+      (init ≠ [] → it.nextBack.2.offsetBack = it.offsetBack - l.length) := by
+  unfold Iter.nextBack
+  have hemp : it.text.isEmpty = false := by simpa using hne
+  simp only [hemp, Bool.false_eq_true, ↓reduceIte]
+  obtain ⟨term, ht, hterm⟩ := trim_decomp it.text
+  have hforms : term = [] ∨ term = [10] ∨ term = [13] ∨ term = [13, 10] := by
+    rcases hterm with ⟨h, _⟩ | ⟨h, _⟩ | h | h <;> simp [h]
+  rcases rfind_decomp (trimTrailing it.text) with ⟨hnone, hall⟩ | ⟨a, c, body, hdec, hc, hbody, hsome⟩
+  · -- the whole remaining text is one line
+    rw [hnone]
+    refine ⟨[], it.text, ?_, by simp [splitLines]⟩
+    have := splitLines_single _ _ hall hforms (by rw [← ht]; exact hne)
+    rw [← ht] at this
+    simpa using this
+  · rw [hsome]
+    have htext : it.text = (a ++ [c]) ++ (body ++ term) := by
+      rw [ht, hdec]; simp
+    have htake : it.text.take (a.length + 1) = a ++ [c] := by
+      have hl : a.length + 1 = (a ++ [c]).length := by simp
+      rw [htext, hl, List.take_left']
+      rfl
+    have hdrop : it.text.drop (a.length + 1) = body ++ term := by
+      have hl : a.length + 1 = (a ++ [c]).length := by simp
+      rw [htext, hl, List.drop_left']
+      rfl
+    have hne2 : body ++ term ≠ [] := by
+      intro h
+      simp at h
+      obtain ⟨rfl, rfl⟩ := h
+      rcases hterm with ⟨_, hl⟩ | ⟨h, _⟩ | h | h
+      · have := hl c (by rw [htext]; simp)
+        rw [hc] at this; cases this
+      · cases h
+      · cases h
+      · cases h
+    have hsplit : splitLines it.text = splitLines (a ++ [c]) ++ [body ++ term] := by
+      rw [htext, splitLines_append, splitLines_single _ _ hbody hforms hne2]
+      · exact ⟨c, by simp, hc⟩
+      · intro ⟨h13, h10⟩
+        simp at h13
+        subst h13
+        cases body with
+        | cons x xs =>
+          simp at h10
+          have := hbody x (by simp)
+          rw [h10] at this; simp [isNl] at this
+        | nil =>
+          simp at h10
+          rcases hterm with ⟨h, _⟩ | ⟨h, hl⟩ | h | h
+          · rw [h] at h10; simp at h10
+          · apply hl; rw [hdec]; simp
+          · rw [h] at h10; simp at h10
+          · rw [h] at h10; simp at h10
+    refine ⟨splitLines (a ++ [c]), body ++ term, hsplit, ?_⟩
+    simp [htake, hdrop, splitLines_flatten_aux]
+
+def Line.toPair (l : Line) : List Nat × Nat := (l.text, l.offset)
+
+def InvIter (it : Iter) (lines : List (List Nat)) (o : Nat) : Prop :=
+  splitLines it.text = lines ∧ (lines ≠ [] → it.offset = o ∧ it.offsetBack = o + it.text.length)
+
+theorem run_deque (ops : List Bool) (it : Iter) (lines : List (List Nat)) (o : Nat)
+    (hinv : InvIter it lines o) :
+    (it.run ops).map (fun p => (p.1, p.2.map Line.toPair)) = runDeque lines o ops := by
+  induction ops generalizing it lines o with
+  | nil => simp [Iter.run, runDeque]
+  | cons op ops ih =>
+    obtain ⟨hsp, hoff⟩ := hinv
+    cases lines with
+    | nil =>
+      have htext : it.text = [] := (splitLines_eq_nil _).mp hsp
+      have hn := next_empty it htext
+      have hb := nextBack_empty it htext
+      unfold Iter.run
+      cases op
+      · simp only [Bool.false_eq_true, ↓reduceIte, hb, List.map_cons, Option.map_none, runDeque]
+        rw [ih it [] o ⟨hsp, by simp⟩]
+      · simp only [↓reduceIte, hn, List.map_cons, Option.map_none, runDeque]
+        rw [ih it [] o ⟨hsp, by simp⟩]
+    | cons l ls =>
+      have hne : it.text ≠ [] := by
+        intro h; rw [h] at hsp; simp [splitLines] at hsp
+      obtain ⟨ho, hob⟩ := hoff (by simp)
+      have hflat : it.text = (l :: ls).flatten := by rw [← hsp, splitLines_flatten_aux]
+      unfold Iter.run
+      cases op
+      · -- next_back
+        obtain ⟨init, last, h1, h2, h3, h4, h5, h6⟩ := nextBack_spec_aux it hne
+        rw [hsp] at h1
+        have hlen : it.text.length = init.flatten.length + last.length := by
+          rw [hflat, h1]; simp
+        simp only [Bool.false_eq_true, ↓reduceIte, List.map_cons, runDeque]
+        have hlast : (l :: ls).getLast?.getD [] = last := by rw [h1]; simp
+        have hdl : (l :: ls).dropLast = init := by rw [h1]; simp
+        rw [hlast, hdl, h3]
+        congr 1
+        · have hh : it.offsetBack - last.length = o + init.flatten.length := by omega
+          simp only [Line.toPair, Option.map_some, hh]
+        · apply ih
+          refine ⟨by rw [h4, h2], ?_⟩
+          intro hi
+          refine ⟨by rw [h5, ho], ?_⟩
+          rw [h6 hi, h4]; omega
+      · -- next
+        obtain ⟨l', rest, h1, h2, h3, h4, h5, h6⟩ := next_spec_aux it hne
+        rw [hsp] at h1
+        simp at h1; obtain ⟨rfl, rfl⟩ := h1
+        simp only [↓reduceIte, List.map_cons, runDeque]
+        rw [h3]
+        congr 1
+        · simp [Line.toPair, ho]
+        · apply ih
+          refine ⟨by rw [h4, h2], ?_⟩
+          intro hi
+          refine ⟨by rw [h5 hi, ho], ?_⟩
+          rw [h6, h4, hob, hflat]; simp; omega
+
+theorem asStr_spec' (body term : List Nat) (o : Nat) (hb : ∀ x ∈ body, isNl x = false)
+    (ht : term = [] ∨ term = [10] ∨ term = [13] ∨ term = [13, 10]) :
+    Line.asStr ⟨body ++ term, o⟩ = body := by
+  have hlast : ∀ r x, body.reverse = x :: r → x ≠ 10 ∧ x ≠ 13 := by
+    intro r x h
+    have : x ∈ body := by
+      have : x ∈ body.reverse := by rw [h]; simp
+      simpa using this
+    have := hb x this
+    simpa [isNl] using this
+  unfold Line.asStr
+  rcases ht with rfl | rfl | rfl | rfl
+  · simp only [List.append_nil]
+    split
+    · next r h => exact absurd rfl (hlast _ _ h).1
+    · next r _ h => exact absurd rfl (hlast _ _ h).1
+    · next r h => exact absurd rfl (hlast _ _ h).2
+    · rfl
+  · simp only [List.reverse_append, List.reverse_cons, List.reverse_nil, List.nil_append, List.singleton_append]
+    split
+    · next r h =>
+      have h' : body.reverse = 13 :: r := by simpa using h
+      exact absurd rfl (hlast _ _ h').2
+    · next r _ h => simp
+    · next r h => simp at h
+    · next h1 h2 h3 => exact absurd rfl (h2 _)
+  · simp only [List.reverse_append, List.reverse_cons, List.reverse_nil, List.nil_append, List.singleton_append]
+    simp
+  · simp only [List.reverse_append, List.reverse_cons, List.reverse_nil, List.nil_append, List.cons_append]
+    simp
+
 end PV.C15
